@@ -93,6 +93,11 @@ func (rr *dependencyResolver) PackageFiles(ctx context.Context, pkgName string) 
 		if err != nil {
 			return nil, err
 		}
+		if file.Summary != nil && file.Summary.Package != pkgName {
+			// the listing is by path prefix: dep/v1 also matches dep/v1/sub/ and
+			// dep/v1beta/, whose files declare other packages
+			continue
+		}
 		files = append(files, file)
 	}
 	return files, nil
